@@ -224,6 +224,10 @@ def minor_case(cid, gene, coverage, major_sol, result, enumerate_all=True, plant
             phases.append({"cnt": n, "at": [{"si": site_idx[k], "var": var_idx.get((k, v), 0)} for k, v in c_]})
     return {
         "id": cid, "p": params(coverage.profile), "sites": sites, "phases": phases,
+        # number of allele-copy variables of the model and the budget of phase variables: beyond it the stage
+        # down-samples the fragment patterns (a heuristic the property does not describe)
+        "nalleles": sum(max(1, sum(n for sa, n in major_sol.solution.items() if sa.major == a)) * len(gene.alleles[a].minors) for a in called),
+        "phaseVars": int(coverage.profile.minor_phase_vars),
         "vars": [{"si": site_idx[p], "ins": op.startswith("ins"), "core": gene.mutations.get((p, op), (None,))[0] is not None,
                   "pos": p - origin, "op": op} for p, op in vars_],
         "cfgs": cfgs, "struct": struct, "majors": majors, "minors": minors, "call": call,
